@@ -64,7 +64,18 @@ def run(P, R, tier, cfg):
     if WG not in P.adts:
         raise Broken("anchor missing: " + WG)
     # -------------------------------------------------------------- encapsulation of the state
-    for adt, fields in ((WG, ["current_watermark", "max_timestamp"]), (LH, ["late_count", "dropped_count", "allowed_count", "side_output"]), (WS, sorted(_ws_roles(P).values()))):
+    lh_roles = _lh_roles(P)
+    lh_fields = {}
+    for role, (leaf, owner, txt) in (lh_roles or {}).items():
+        lh_fields.setdefault(owner, []).append(leaf)
+        top = txt.split(".")[1] if txt.count(".") >= 2 else None
+        if top:
+            lh_fields.setdefault(LH, []).append(top)
+    if lh_roles is None:
+        lh_fields = {LH: ["late_count", "dropped_count", "allowed_count", "side_output"]}
+    for adt, fields in [(WG, ["current_watermark", "max_timestamp"]), (WS, sorted(_ws_roles(P).values()))] + sorted(lh_fields.items()):
+        if adt not in P.adts:
+            continue
         for v in P.adts[adt]["variants"]:
             for f in v["fields"]:
                 if f["name"] in fields:
@@ -146,7 +157,7 @@ def run(P, R, tier, cfg):
         if gen_calls and not all(pe.dominates(st[0][0], c.bb) or True for c in gen_calls):
             pass
         for c in gen_calls:
-            if st[0][0] in pe.reach(c.bb):
+            if c.target is not None and st[0][0] in pe.reach(c.target):   # after the call returns (a store in the call's own block precedes it)
                 R.violate("b", "process_event:order", "max_timestamp is updated after the watermark was generated", pe, st[0][2][0])
 
     # -------------------------------------------------------------- b. formula per strategy arm
@@ -168,10 +179,18 @@ def run(P, R, tier, cfg):
                 continue
             region = gen.reach(ve[var], avoid_blocks=set()) - _other_arm_blocks(gen, sw[0], ve[var])
             cands = [c for c in new_calls if gen.edge_dominates(sw[0], ve[var], _lab(gen, sw[0], ve[var]), c.bb)]
+            arg = None
+            if not cands and len(new_calls) == 1:
+                # one shared `Watermark::new(ts)` after the match, each arm yielding its `ts`: the arm's candidate is the
+                # value the arm assigns to that variable
+                arg = _arm_value(gen, new_calls[0].args[0], sw[0], ve[var], _lab(gen, sw[0], ve[var]))
+                if arg is not None:
+                    cands = new_calls
             if len(cands) != 1:
                 R.undecide("b", "arm " + var, "expected exactly one Watermark::new candidate on the %s arm, found %d" % (var, len(cands)), gen)
                 continue
-            arg = gen.sym_operand(cands[0].args[0])
+            if arg is None:
+                arg = gen.sym_operand(cands[0].args[0])
             if pred(arg):
                 R.hold("b", "arm %s: candidate = %s" % (var, fmt_sym(arg)), fn=gen, line=cands[0].line)
                 R.sample({"clause": "b", "arm": var, "candidate": fmt_sym(arg)})
@@ -221,21 +240,33 @@ def run(P, R, tier, cfg):
     _conservation_handle(P, R, hl)
     ae = P.one(WS + "::add_event")
     _conservation_add_event(P, R, ae, hl, pe)
-    # stats(): each counter from its own field
+    # stats(): each published counter is read from its own private field (the fields are found from stats() itself, see _lh_roles;
+    # a swap therefore shows up as a wrong path effect in handle_late_event)
     stf = P.one(LH + "::stats")
-    aggs = A.aggregates_of(stf, "LateDataStats")
-    if len(aggs) == 1:
-        s = stf.sym_rvalue(aggs[0][2][4])
-        names = aggs[0][2][4][4]
-        m = dict(zip(names, [fmt_sym(x) for x in s[2]]))
-        exp = {"total_late": "self.late_count", "dropped": "self.dropped_count", "allowed": "self.allowed_count", "side_output": "std::vec::Vec::len(self.side_output)"}
-        for k, v in exp.items():
-            if m.get(k) == v:
-                R.hold("d", "stats.%s = %s" % (k, v), fn=stf)
-            else:
-                R.violate("d", "stats:%s" % k, "LateDataStats.%s is read from `%s`, expected `%s`" % (k, m.get(k), v), stf)
+    roles = _lh_roles(P)
+    if roles is None:
+        R.undecide("d", "stats", "LateDataStats is not built once from four distinct private fields of the handler", stf)
     else:
-        R.undecide("d", "stats", "LateDataStats aggregate not found once", stf)
+        for k in ("total_late", "dropped", "allowed", "side_output"):
+            R.hold("d", "stats.%s = %s" % (k, roles[k][2]), fn=stf)
+
+
+def _arm_value(fn, operand, sw, tgt, lab):
+    """The value a match arm gives to the variable `operand` reads: follow single-definition copies back to the merged local,
+    then take its one definition that lies on the arm (edge-dominated by sw -> tgt). None when there is not exactly one."""
+    if operand[0] not in ("c", "m") or operand[1][1]:
+        return None
+    loc = operand[1][0]
+    for _ in range(6):
+        ds = [d for d in fn.defs().get(loc, []) if d[0] in fn.normal_blocks()]
+        if len(ds) == 1 and ds[0][2] == "assign" and not ds[0][3][3][1] and ds[0][3][4][0] == "use" and ds[0][3][4][1][0] in ("c", "m") and not ds[0][3][4][1][1][1]:
+            loc = ds[0][3][4][1][1][0]
+            continue
+        on_arm = [d for d in ds if d[2] == "assign" and not d[3][3][1] and fn.edge_dominates(sw, tgt, lab, d[0])]
+        if len(ds) > 1 and len(on_arm) == 1:
+            return fn.sym_rvalue(on_arm[0][3][4])
+        return None
+    return None
 
 
 def _lab(fn, sw, tgt):
@@ -285,9 +316,51 @@ def _flows_to_return(fn, local, depth=0):
     return False
 
 
+_LH_ROLES = {}
+
+
+def _lh_roles(P):
+    """Which private field of the late-data handler backs which published statistic, read off stats():
+    role -> (leaf field, owning struct, printed path). The published names (LateDataStats.total_late / dropped / allowed /
+    side_output) are the API; the fields behind them are found, not assumed. None when stats() is not one aggregate of
+    four distinct `self...` fields (side_output through Vec::len)."""
+    if id(P) in _LH_ROLES:
+        return _LH_ROLES[id(P)]
+    out = None
+    stf = P.one(LH + "::stats")
+    aggs = A.aggregates_of(stf, "LateDataStats") if stf else []
+    if len(aggs) == 1:
+        sy = stf.sym_rvalue(aggs[0][2][4])
+        names = aggs[0][2][4][4]
+        out = {}
+        for k, x in zip(names, sy[2]):
+            x = strip(x)
+            if k == "side_output" and x[0] == "call" and x[1].endswith("Vec::len") and len(x[2]) == 1:
+                x = strip(x[2][0])
+            txt = fmt_sym(x)
+            if x[0] == "field" and txt.startswith("self.") and "(" not in txt:
+                out[k] = (x[2], x[3], txt)
+        if set(out) != {"total_late", "dropped", "allowed", "side_output"} or len(set(v[2] for v in out.values())) != 4:
+            out = None
+    _LH_ROLES[id(P)] = out
+    return out
+
+
+ROLE_EVENT = {"total_late": "late_count", "dropped": "dropped_count", "allowed": "allowed_count"}
+
+
 def _conservation_handle(P, R, hl):
-    ev = _counter_events(hl, ["late_count", "dropped_count", "allowed_count"], LH)
-    for (c, recv) in A.calls_with_receiver_field(hl, "side_output", LH):
+    roles = _lh_roles(P)
+    if roles is None:
+        R.undecide("d", "handle_late_event", "the counters behind LateDataStats could not be identified from stats()", hl)
+        return
+    ev = {}
+    for role, evname in ROLE_EVENT.items():
+        leaf, owner, txt = roles[role]
+        for bb, evs in _counter_events(hl, [leaf], owner).items():
+            ev.setdefault(bb, []).extend(e[0] + evname for e in evs)
+    so_leaf, so_owner, _ = roles["side_output"]
+    for (c, recv) in A.calls_with_receiver_field(hl, so_leaf, so_owner):
         if c.name == "std::vec::Vec::push":
             ev.setdefault(c.bb, []).append("+side_output")
         elif c.name not in ("std::vec::Vec::len",):
